@@ -33,10 +33,13 @@ struct S_ZTSSt4pairISt17_Rb_tree_iteratorIS_IKPKN3ipr9ParameterEPKNS1_4ExprEEEbE
 
 static param_t* new_param(void) { param_t* p = malloc(sizeof *p); __CPROVER_assume(p != 0); return p; }
 static expr_t* new_expr(void) { expr_t* p = malloc(sizeof *p); __CPROVER_assume(p != 0); return p; }
+/* an arbitrary expression: a fresh node, or one of the parameters themselves (a parameter is an expression) */
+static expr_t* any_expr(param_t* a, param_t* b) { return nondet_bool() ? new_expr() : nondet_bool() ? AS_EXPR(a) : AS_EXPR(b); }
+static void new_gsub(gsub_t* s) { @{gen_ctor}(s); }   /* the real (implicitly defined) constructor; the map member is the ghost model above */
 
 void h_elem(void)
 {
-  param_t* parm = new_param(); param_t* other = new_param(); expr_t* value = new_expr();
+  param_t* parm = new_param(); param_t* other = new_param(); expr_t* value = any_expr(parm, other);
   esub_t s;
   @{elem_ctor}(&s, parm, value);
   param_t* q = nondet_bool() ? parm : other;
@@ -47,9 +50,9 @@ void h_elem(void)
 
 void h_gen_lookup(void)
 {
-  gsub_t s; param_t* q = new_param();
+  gsub_t s; param_t* q = new_param(); new_gsub(&s);
   K0 = q; has0 = nondet_bool();
-  if (has0) { pair0.f_first = q; pair0.f_second = new_expr(); }
+  if (has0) { pair0.f_first = q; pair0.f_second = any_expr(q, q); }
   expr_t* r = @{gen_index}(&s, q);
   if (has0) { __CPROVER_assert(r == pair0.f_second, "C16: a parameter in the domain maps to the expression bound to it"); IPR_CANARY_POINT(); }
   else { __CPROVER_assert(r == AS_EXPR(q), "C16: a parameter outside the domain maps to itself"); IPR_CANARY_POINT(); }
@@ -57,10 +60,11 @@ void h_gen_lookup(void)
 
 void h_gen_subst(void)
 {
-  gsub_t s; param_t* p = new_param(); param_t* q = new_param(); expr_t* v = new_expr(); expr_t* v2 = new_expr();
+  gsub_t s; param_t* p = new_param(); param_t* q = new_param(); expr_t* v = any_expr(p, q); expr_t* v2 = any_expr(p, q);
+  new_gsub(&s);
   _Bool same = nondet_bool();           /* track p itself, or some other parameter q */
   K0 = same ? p : q; has0 = nondet_bool();
-  if (has0) { pair0.f_first = K0; pair0.f_second = new_expr(); }
+  if (has0) { pair0.f_first = K0; pair0.f_second = any_expr(p, q); }
   expr_t* before = @{gen_index}(&s, K0);
   gsub_t* back = @{gen_subst}(&s, p, v);
   __CPROVER_assert(back == &s, "C16: subst returns the substitution itself");
